@@ -55,6 +55,13 @@ CODES = {
     107: 'exact regime (all shards available, no offset, total matches <= per-shard limit): a matching point is missing',
     109: 'a collection that lives in one shard, no sort keys, no paging, every server up: the cluster answer is not the shard\'s answer in the shard\'s order (composite of a ranking sub-query and a filter: ranked points first, then the points only the filter matched)',
     108: 'an operation failed (error / failed ranges) although every shard server was available',
+    121: 'a request of the scaffolding of a history failed although every server was up: CreateCollection',
+    122: 'a request of the scaffolding of a history failed although every server was up: GetCollection (the record read back through a node)',
+    123: 'a request of the scaffolding of a history failed although every server was up: InsertPoints before the recorded part',
+    124: 'a request of the scaffolding of a history failed although every server was up: SearchPoints before the recorded part',
+    125: 'a request of the scaffolding of a history failed although every server was up: DeleteCollection',
+    126: 'a request of the scaffolding of a history failed although every server was up: GetShardsInfo',
+    127: 'a request of the scaffolding of a history failed although every server was up: a shard read on the server that owns it',
     201: 'search: the number of rows, or the sort-key / hybrid class at some position, differs from the model cluster_search '
          '(per-shard limit and offset rewriting, merge, cut) applied to the shard contents',
     203: 'the per-shard limit computed by the Go expression differs from Model_C17.per_shard_limit (float32 rounding model)',
@@ -100,3 +107,4 @@ CFG['rule'] = CFG['rule'] + ' ' + 'Closing a server also shuts the RPC clients t
 CFG['rule'] = CFG['rule'] + ' ' + "The stream on curateFailedPoints has requests of distinct ids with 0..70 processed ones (15/16/17, 31/32/33, 63/64/65 over-weighted) in arbitrary order. The nodes' shard-manager root differs from the node root."
 
 CFG['rule'] = CFG['rule'] + ' ' + 'CPass: on a collection that lives in one shard, a composite of a weighted vector sub-query and a filter (no sort keys, no paging) is asked at the cluster and at the shard before every group of searches: same points, same order (code 109).'
+CFG['rule'] = CFG['rule'] + ' ' + 'Every node lists the same servers starting with itself (placement must be a function of the set). Three histories of four give the collection name an earlier life on the same cluster (created, filled to the same shard count, searched through every node, deleted). A request of this scaffolding that fails on a healthy cluster is recorded as an observation (CUnexpected, codes 121..127), not as a harness failure.'
